@@ -142,6 +142,44 @@ extern "C" void harness_undeclared_identifier()  /* vf: bounds=14_text_blocks(gl
     vf_assert(exact, "range-covers-exactly-the-identifier");
 }
 
+// elements without content before the faulted block, written with start and end tag or in the self-closing form: the XPath of the block counts them all
+extern "C" void harness_empty_elements()  /* vf: bounds=childless_anonymous_location_at_position_1..3_before_a_location_with_a_faulty_invariant;guard_label_without_text_before_a_faulty_update;each_written_as_<x></x>_or_<x/> reach=end */
+{
+    int kind = vf_pick("!faulted", 2), pos = vf_pick("!empty_at", 3), sc = vf_pick("!self_closing", 2), two = vf_pick("!two_empty_elements", 2);
+    MModel m; m.gdecl = "int g; clock x;"; m.system = "system T;";
+    MTemplate t; t.name = "T";
+    t.locs = {MLoc{"id0", "A"}, MLoc{"id1", "B"}, MLoc{"id2", "C"}, MLoc{"id3", "D"}};
+    t.init = 3;
+    std::string path;
+    if (kind == 0) {
+        t.locs[pos].name = ""; if (two) t.locs[(pos + 1) % 3].name = "";
+        t.locs[3].inv = "nope <= 5";
+        path = "/nta/template[1]/location[4]/label[1]";
+        MEdge e; e.src = 3; e.dst = 3; e.guard = "g < 1"; t.edges = {e};
+    } else {
+        MEdge e0; e0.src = 3; e0.dst = 3; e0.empty_guard_label = pos != 0; e0.assign = "g = 1";
+        MEdge e1; e1.src = 3; e1.dst = 0; e1.empty_guard_label = true; e1.sync = ""; e1.assign = "g = nope";
+        t.edges = {e0, e1};
+        path = "/nta/template[1]/transition[2]/label[2]";
+    }
+    m.templs = {t};
+    xml_selfclose = sc;
+    XmlDoc d = render_xml(m);
+    xml_selfclose = false;
+    Document doc; bool threw = false;
+    try { parse_xml(d, &doc); } catch (std::exception& e) { threw = true; vf_note(e.what()); }
+    vf_assert(!threw, "parse-returns");
+    bool found = false, here = true;
+    for (auto& e : doc.get_errors()) {
+        std::string p = e.start.path ? *e.start.path : std::string();
+        vf_note((e.msg + diag_pos(e)).c_str());
+        if (e.msg.find("nope") != std::string::npos) { found = true; if (p != path) here = false; }
+    }
+    vf_reach("end");
+    vf_assert(found, "undeclared-identifier-reported");
+    vf_assert(here, "diagnostic-carries-the-xpath-of-the-faulted-block");
+}
+
 // other faults: the position lies inside the block: right XPath, line within the block text, columns within that line, start <= end
 extern "C" void harness_fault_positions()  /* vf: bounds=14_text_blocks_x_7_faults(labels:dropped_operand,unbalanced_bracket,stray_token,type_error,side_effect,unterminated_comment,unknown_token;declarations_and_parameters:misplaced_prefixes,ill-typed_sizes_and_ranges)_x_11_layouts reach=end */
 {
